@@ -46,6 +46,10 @@ class Conc(object):
             return "%s/%s/%s" % ("-".join(self.tok[t] for t in u.split("-")), self.arch[a], self.cat[c])
         if s == "$name:dash":
             return "Pretty dash"
+        if s == "$name:dashkid":
+            return "Pretty dash kid"
+        if s == "$dashkiduid":
+            return self.dashuid + "-" + self.tok["o"]
         if s.startswith("$name:"):
             return "Pretty " + "-".join(self.tok[t] for t in s[6:].split("-"))
         if s.startswith("$label:"):
@@ -146,6 +150,10 @@ def build(obj, conc):
         v = Variant(ci)
         v.id, v.uid, v.name, v.type, v.arches = conc.dashid, conc.dashuid, "Pretty dash", "variant", set([conc.arch["x"]])
         ci.variants.add(v)
+        if obj.get("dashkid"):
+            k = Variant(ci)
+            k.id, k.uid, k.name, k.type, k.arches = conc.tok["o"], conc.dashuid + "-" + conc.tok["o"], "Pretty dash kid", "optional", set([conc.arch["x"]])
+            v.add(k)
     return ci
 
 
@@ -202,6 +210,13 @@ def check_reread(obj, conc, ci, c2):
                 fails.append("dashed top-level variant differs after re-read: %r" % ((b.id, b.uid, b.type, b.arches),))
         except Exception as exc:
             fails.append("dashed top-level variant %s not found after re-read: %s" % (conc.dashuid, exc))
+        if obj.get("dashkid"):
+            try:
+                k = c2[conc.dashuid].variants[conc.tok["o"]]     # reached through its parent (lookup by UID is C11's subject)
+                if (k.id, k.type, k.parent.uid if k.parent is not None else None) != (conc.tok["o"], "optional", conc.dashuid):
+                    fails.append("child of the dashed top-level variant differs after re-read: %r" % ((k.id, k.type, k.parent),))
+            except Exception as exc:
+                fails.append("child of the dashed top-level variant not found after re-read: %s" % exc)
     return fails
 
 
@@ -210,7 +225,7 @@ def evaluate(case):
     conc = Conc(case.get("rot", 0))
     obj = case["obj"]
     what = "compose %s" % json.dumps({"nodes": [[n["path"], n["type"], n["arches"], n["paths"]] for n in obj["nodes"]],
-                                      "dashed": obj["dashed"], "sec": obj["sec"], "rot": conc.rot}, sort_keys=True)[:700]
+                                      "dashed": obj["dashed"], "dashkid": obj.get("dashkid", False), "sec": obj["sec"], "rot": conc.rot}, sort_keys=True)[:700]
     try:
         ci = build(obj, conc)
         text = ci.dumps()
